@@ -26,8 +26,16 @@ namespace au {
 // Check that this particular Magnitude won't cause this specific value to overflow its type.
 template <typename Rep, typename... BPs>
 constexpr bool can_scale_without_overflow(Magnitude<BPs...> m, Rep value) {
-    // Scales that shrink don't cause overflow.
-    if (get_value<double>(m) <= 1.0) {
+    // Scales that shrink don't cause overflow.  (A scale too small to represent even in `long double`
+    // also shrinks; we recognize it by the fact that its inverse _can_ be represented.)
+    constexpr auto scale = detail::get_value_result<long double>(Magnitude<BPs...>{});
+    constexpr auto inverse_scale =
+        detail::get_value_result<long double>(MagInverseT<Magnitude<BPs...>>{});
+    constexpr bool shrinks = (scale.outcome == detail::MagRepresentationOutcome::OK)
+                                 ? (scale.value <= 1.0L)
+                                 : (inverse_scale.outcome == detail::MagRepresentationOutcome::OK);
+    (void)m;
+    if (shrinks) {
         (void)value;
         return true;
     } else {
